@@ -93,8 +93,8 @@ func c08RunConcHook(w *scWorld, bs []*scBH, threads []c08Thread, sched string) (
 				if e.t == t {
 					return true
 				}
-			case <-time.After(10 * time.Second):
-				errs = fmt.Sprintf("thread %d did not reach a yield point or its end within 10s (parked: %v)", t, parked)
+			case <-time.After(schedTO()):
+				errs = fmt.Sprintf("thread %d did not reach a yield point or its end within %s (parked: %v)", t, schedTO(), parked)
 				return false
 			}
 		}
@@ -113,11 +113,17 @@ func c08RunConcHook(w *scWorld, bs []*scBH, threads []c08Thread, sched string) (
 			results[t] = r
 			ctl.events <- c08Evt{t: t, done: true}
 		}()
-		id := <-idCh
+		var id string
+		select {
+		case id = <-idCh:
+		case <-time.After(schedTO()):
+			errs = fmt.Sprintf("the goroutine of thread %d did not start", t)
+			return false
+		}
 		if !mayBlock {
 			return waitFor(t)
 		}
-		deadline := time.Now().Add(2 * time.Second)
+		deadline := time.Now().Add(schedTO() / 4)
 		for i := 0; ; i++ {
 			select {
 			case e := <-ctl.events:
@@ -132,7 +138,7 @@ func c08RunConcHook(w *scWorld, bs []*scBH, threads []c08Thread, sched string) (
 				return true
 			}
 			if time.Now().After(deadline) {
-				errs = fmt.Sprintf("committer thread %d neither reached a yield point nor blocked on a mutex within 2s", t)
+				errs = fmt.Sprintf("committer thread %d neither reached a yield point nor blocked on a mutex within %s", t, schedTO()/4)
 				return false
 			}
 			runtime.Gosched()
@@ -176,8 +182,14 @@ func c08RunConcHook(w *scWorld, bs []*scBH, threads []c08Thread, sched string) (
 			results[t] = r
 			ctl.events <- c08Evt{t: t, done: true}
 		}()
-		id := <-idCh
-		deadline := time.Now().Add(2 * time.Second)
+		var id string
+		select {
+		case id = <-idCh:
+		case <-time.After(schedTO()):
+			errs = fmt.Sprintf("the goroutine of writer thread %d did not start", t)
+			return false
+		}
+		deadline := time.Now().Add(schedTO() / 4)
 		for i := 0; ; i++ {
 			select {
 			case e := <-ctl.events:
@@ -192,7 +204,7 @@ func c08RunConcHook(w *scWorld, bs []*scBH, threads []c08Thread, sched string) (
 				return true
 			}
 			if time.Now().After(deadline) {
-				errs = fmt.Sprintf("writer thread %d neither returned nor blocked on a mutex within 2s", t)
+				errs = fmt.Sprintf("writer thread %d neither returned nor blocked on a mutex within %s", t, schedTO()/4)
 				return false
 			}
 			runtime.Gosched()
@@ -233,7 +245,7 @@ func c08RunConcHook(w *scWorld, bs []*scBH, threads []c08Thread, sched string) (
 		trace = append(trace, fmt.Sprintf("%d:%s", t, parked[t]))
 		select {
 		case ctl.resume[t] <- struct{}{}:
-		case <-time.After(10 * time.Second):
+		case <-time.After(schedTO()):
 			errs = fmt.Sprintf("thread %d was taken to be parked at %s but does not accept its release (parked: %v)", t, parked[t], parked)
 			return false
 		}
